@@ -425,6 +425,10 @@ def check_path(ex, cfg, status, ret, agg):
                 wf += [z3.BoolVal(len(rows) == 1), rows[0][0] == win['c1'], ext == win['c2'] - win['c1']]
         check_claim(ex, agg, 'file index well formed: >=1 row, offset 0 first, strictly increasing, d(offset)<=d(sample), last offset inside the '
                              'stored rows, all samples inside the file window, rows <= window capacity', z3.And(*wf))
+        # a file is created only by a call that writes at least one of its slots
+        cre_call = [c for c in calls if c['ev0'] <= f['ev'] < c['ev1']]
+        agg.note('a data file exists only if the call that created it wrote at least one of its slots',
+                 bool(cre_call) and any(cre_call[0]['ev0'] <= w['ev'] < cre_call[0]['ev1'] for w in f['writes']), None)
         # naming + protocol
         tmpn, finn = expected_names(ex, cfg, win)
         e_tmp = envstubs.str_eq(f['name'].copy(), tmpn)
